@@ -5,6 +5,7 @@ package queuedrv
 import (
 	"context"
 	"fmt"
+	"slices"
 	"sort"
 	"sync"
 	"time"
@@ -24,6 +25,13 @@ type Scenario struct {
 	Veto    [][2]int `json:"veto"`
 	// Prep: <caller, k> operations that are Eval (k odd) / CanAdd (k even): PrependMut
 	Prep [][2]int `json:"prep"`
+	// Noop: mutations that are accepted but change nothing (no clock tick
+	// moves): the state is not Multi and already active when the scenario
+	// starts. <caller, k> - that Add of a caller; <caller, k, 1> - the Add nested
+	// by the handler of <caller, k>.  (A Remove of an inactive state is the other
+	// member of the class, but Machine.Remove answers it without queueing when
+	// the queue is empty inside a transition; the free-running part issues those.)
+	Noop [][]int `json:"noop"`
 }
 
 func stateOf(c, k int) string    { return fmt.Sprintf("S%d_%d", c, k) }
@@ -130,12 +138,39 @@ func Run(sc Scenario, prefix []int) (lines []any, taken []int, enabled [][]int) 
 	for _, v := range sc.Prep {
 		prep[v] = true
 	}
+	// accepted no-ops: add of an active non-Multi state
+	var preset am.S
+	for _, v := range sc.Noop {
+		st := stateOf(v[0], v[1])
+		if len(v) == 3 {
+			st = nestedOf(v[0], v[1])
+		}
+		if _, ok := schema[st]; ok {
+			schema[st] = am.State{}
+			preset = append(preset, st)
+		}
+	}
 	names = append(names, am.StateException)
 	tr := &popTracer{TracerNoOp: &am.TracerNoOp{Id: "pop"}}
 	m := am.New(context.Background(), schema, &am.Opts{Id: "q", Tracers: []am.Tracer{tr},
 		HandlerTimeout: 5 * time.Second})
 	_ = m.VerifyStates(names)
 	defer m.Dispose()
+	if len(preset) > 0 {
+		// start with the preset states active, without spending a queue tick
+		data, _, err := m.Export()
+		if err == nil {
+			for i, n := range data.StateNames {
+				if slices.Contains(preset, n) {
+					data.Time[i] = 1
+				}
+			}
+			err = m.Import(data)
+		}
+		if err != nil || !m.Is(preset) {
+			panic(fmt.Sprint("queuedrv: preset failed: ", err))
+		}
+	}
 
 	var mu sync.Mutex
 	add := func(l any) { mu.Lock(); lines = append(lines, l); mu.Unlock() }
